@@ -27,6 +27,8 @@
 (* leaf; GenLeafless states the MAX_ITER rule of event-less structures.     *)
 (* For Legacy = TRUE, LegacyRelation says exactly where the old generator   *)
 (* lost events and TLC refutes GenLossless (regression counterexample).     *)
+(* LazyCall *objects* with mutable batch_size, shared inner stages and       *)
+(* copy / data_replace siblings are the state machine spec/LazyCall.tla.    *)
 EXTENDS Integers, Sequences, FiniteSets, TLC, Json, IOUtils, SequencesExt
 
 CONSTANTS MaxNodes,    \* largest number of nodes of a tree
